@@ -229,9 +229,12 @@ def _motion(ctx, prog):
     may be remembered as an index, as a distance, or read from the list"""
     f = prog.func("evo.core.filters.filter_by_motion")
     ctx.analysed_fn(f.qualname)
-    ctx.require(f.params[:4] == ["poses", "distance_threshold",
-                                 "angle_threshold", "degrees"],
-                "filter_by_motion signature changed")
+    from ..lib import extra_defaults
+    # (parameters added later are analysed at their defaults; what the
+    # method passes for them is judged at its call)
+    extra = extra_defaults(f, ["poses", "distance_threshold",
+                               "angle_threshold", "degrees"])
+    ctx.require(extra is not None, "filter_by_motion signature changed")
     poses = tm.param("poses")
     thr_d = tm.param("distance_threshold")
     thr_a_raw = tm.param("angle_threshold")
@@ -241,7 +244,7 @@ def _motion(ctx, prog):
     # thresholds >= 0 are in the property's range, 0 included ("keeps a
     # later pose if ... reached the threshold" — every pose for 0): an input
     # guard may refuse negative values only
-    r0 = Interp(prog).run(f, {"degrees": const(False)})
+    r0 = Interp(prog).run(f, dict(extra, degrees=const(False)))
     for e in r0.of_kind("raise"):
         for a in tm.atoms(e.live):
             n_ = norm_cmp(a)
@@ -262,7 +265,7 @@ def _motion(ctx, prog):
                                 f">= 0 incl. 0 are valid",
                            key=f"C11.2:guard:{thr.args[0]}")
     for deg in (False, True):
-        r = Interp(prog).run(f, {"degrees": const(deg)})
+        r = Interp(prog).run(f, dict(extra, degrees=const(deg)))
         ctx.analysed["configs"] += 1
         ret = r.ret
         if ret.op != "loopout":
@@ -471,7 +474,7 @@ def _motion(ctx, prog):
                    f"itself (always current)", key="C11.2:reset:angle",
                    nontrivial=False)
     # guards
-    r = Interp(prog).run(f)
+    r = Interp(prog).run(f, dict(extra))
     neg = [e for e in r.of_kind("raise")
            if "FilterException" in (e.data.get("exc_name") or "")]
     ctx.ob("C11.2", f, len(neg) >= 3,
@@ -487,6 +490,18 @@ def _motion(ctx, prog):
             b.get("distance_threshold") is tm.param("distance_threshold") \
             and b.get("angle_threshold") is tm.param("angle_threshold") and \
             b.get("degrees") is tm.param("degrees")
+        # an added parameter may only be given what the filter would compute
+        # itself: the accumulated distances of the same object
+        for k, v in b.items():
+            if not ok or k not in extra or v is extra[k]:
+                continue
+            alts = [a for a in tm.strip_ite(v) if a is not extra[k]]
+            own = all(a is tm.attr(SELF, "distances") for a in alts)
+            if k == "distances" and own:
+                continue
+            ctx.undecidable("C11.2", c[0],
+                            f"motion_filter passes {k}={fmt(v)[:80]} to the "
+                            f"added parameter of filter_by_motion")
     ctx.ob("C11.2", m, ok,
            "PosePath3D.motion_filter passes its own poses and the "
            "like-named thresholds", key="C11.2:method-wiring")
